@@ -306,7 +306,7 @@ def shard_generated(ctx: Ctx, sh: int, nshards: int, n: int) -> Stats:
             for sig, det in fails:
                 st.fail(sig, case, det)
 
-        drive(c08.doc_strategy(), one, ctx.shard_seed(sh, 22), n)
+        drive(c08.doc_strategy(), one, ctx.shard_seed(sh, 22), n, chunk=4000)
     return st
 
 
